@@ -34,38 +34,56 @@ PID = "C13"
 TITLE = "Static context seen by an element depends only on what encloses and precedes it"
 LEAN_MODULES = ["LenaModel.Props.C13"]
 LEAN_SOURCES = ["LenaModel/Model/Val.lean", "LenaModel/Model/C13.lean", "LenaModel/Lemmas/C13Dict.lean",
-                "LenaModel/Lemmas/C13Pass.lean", "LenaModel/Lemmas/C13WF.lean", "LenaModel/Props/C13.lean"]
+                "LenaModel/Lemmas/C13Pass.lean", "LenaModel/Lemmas/C13WF.lean", "LenaModel/Lemmas/C13Frame.lean",
+                "LenaModel/Props/C13.lean"]
 DRIVER = "drivers/C13.lean"
 THEOREMS = [
+    # the closed form of the multi-pass protocol and what makes it sound
     "Lena.C13.build_eq_final",
+    "Lena.C13.setCtx_final",
+    "Lena.C13.loop_final",
+    "Lena.C13.fold_mono",
+    "Lena.C13.skip_sound",
+    "Lena.C13.no_stale_error",
+    # sentence 1: seen = prefix fold
     "Lena.C13.seen_is_prefix_fold_node",
     "Lena.C13.seen_is_prefix_fold",
     "Lena.C13.leafFinal_is_setCtx",
+    # sentence 2: Split copies and exports the intersection; causality
+    "Lena.C13.split_branches_independent",
+    "Lena.C13.split_exports_intersection",
+    "Lena.C13.interN_is_meet",
     "Lena.C13.causality",
     "Lena.C13.causality_later",
     "Lena.C13.causality_sibling",
     "Lena.C13.get_context_is_fold",
     "Lena.C13.get_context_at",
-    "Lena.C13.ctxAt_split",
-    "Lena.C13.split_exports_intersection",
-    "Lena.C13.interN_is_meet",
-    "Lena.C13.unresolved_key_surfaces",
-    "Lena.C13.getRec_error_mem",
+    "Lena.C13.redelivery_idempotent",
+    # sentence 3: an unresolved key surfaces, naming the key
+    "Lena.C13.surfaced_key_is_missing",
+    "Lena.C13.fold_error_origin",
+    "Lena.C13.fmt_error_origin",
+    "Lena.C13.getRec_error_spec",
+    # sentence 3, second half: no leak
     "Lena.C13.no_leak",
-    "Lena.C13.no_leak_without_consumer",
-    "Lena.C13.skip_sound",
-    "Lena.C13.no_stale_error",
-    "Lena.C13.fold_mono",
-    "Lena.C13.setCtx_final",
-    "Lena.C13.loop_final",
-    "Lena.C13.kind_irrelevant",
+    "Lena.C13.mkfCall_frame",
+    # the model's == is Python's ==
     "Lena.C13.delivered_wf",
     "Lena.C13.exported_wf",
+]
+# true by unfolding a definition of the model / reading aids / model-internal glue: audited, not counted
+AUX_THEOREMS = [
+    "Lena.C13.ctxAt_split",
     "Lena.C13.ctxAt_child",
     "Lena.C13.foldL_leaves",
-    "Lena.C13.run_values_independent",
     "Lena.C13.split_transparent_branch",
-    "Lena.C13.redelivery_idempotent",
+    "Lena.C13.kind_irrelevant",
+    "Lena.C13.unresolved_key_surfaces",
+    "Lena.C13.getRec_error_mem",
+    "Lena.C13.no_leak_without_consumer",
+    "Lena.C13.run_reads_only_consumers",
+    "Lena.C13.run_values_independent",
+    "Lena.C13.tokAt_origin",
 ]
 CASE_TIMEOUT = 20
 TRUSTED = [
@@ -81,34 +99,79 @@ TRUSTED = [
     "case's key alphabet",
 ]
 ASSUMPTIONS = [
-    "locality of mutation: no element mutates a context it was given (SetContext, StoreContext, LenaSplit deep-copy; "
-    "_get_context returns deep copies; UpdateContextFromStatic.run and MakeFilename.__call__ copy what they stored), so a "
-    "value model is adequate; the harness reads all objects after the whole construction, so an in-place update by a "
-    "later element shows up as a wrong value",
-    "context leaves are ints and strings; rendering a dictionary with str() (a formatting field that names a "
-    "sub-dictionary) is outside the model (poison leaf `bad`) and is never generated",
-    "templates are well-formed double-brace templates, given to the model parsed (the scanner of format_context is C08's)",
+    "VALUE MODEL / locality of mutation: the Lean model is a value model; it is adequate as long as no element updates in "
+    "place a dictionary it was handed.  lena's own elements do not (SetContext, StoreContext and LenaSplit deep-copy, "
+    "_get_context returns deep copies, UpdateContextFromStatic.run and MakeFilename.__call__ copy what they stored).  The "
+    "copies themselves are checked by the harness, not proved: (i) hostile probe elements that update the dictionary they "
+    "are handed in place (at construction: hset; while the flow runs: hrun) are placed in Split branches, after "
+    "StoreContext, after SetContext and after nested sequences, and nothing outside the group of elements that lena hands "
+    "the very same object (token model `tokAt`, theorem split_branches_independent) may change; (ii) every dictionary "
+    "returned by _get_context() is updated in place at every level and no element may change; (iii) id()-classes of the "
+    "held dictionaries: a StoreContext / SetContext shares with nobody, two elements share only if `tokAt` gives them one "
+    "token.  Trees with hostile probes are judged by the oracle only (no model reply).",
+    "JUDGEMENT (hostile elements): an element whose _set_context updates its argument in place is not among the leaves "
+    "the property quantifies over.  lena hands ONE dictionary object to consecutive elements of a sequence until an "
+    "element with _get_context intervenes; UpdateContextFromStatic and MakeFilename keep that object, so a hostile "
+    "element directly after them would change what they hold (StoreContext copies for exactly this reason, see its "
+    "comment).  That exposure is recorded, not reported: the oracle lets the hostile key appear in elements with the same "
+    "token and nowhere else.",
+    "JUDGEMENT (MakeFilename): the statement's last sentence names UpdateContextFromStatic as the only door from static to "
+    "run-time context, its second sentence names 'the name it derived (MakeFilename fields)'.  The check reads them "
+    "together: MakeFilename may write strings it formats from the static context it saw into context.output.{prefix, "
+    "suffix, filename, dirname, fileext} and nothing else (theorem mkfCall_frame; oracle 2a: with these five keys erased "
+    "the flow equals the flow of the tree in which no MakeFilename was handed static context).",
+    "JUDGEMENT (degenerate Splits): `Split([])` and a Split all of whose branches are bare fill/compute elements have no "
+    "branch context to intersect; lena.context.intersection() of nothing is {}, so they export {} and ERASE the static "
+    "context for what follows (Sequence(SetContext('a',1), Split([]), StoreContext()): the store sees {}), although "
+    "Split([]) 'acts as an empty Sequence' for the flow and a context-less branch is called transparent in split.py.  The "
+    "statement says 'exports the intersection of its branches' contexts'; specification (interN [] = {}), Python reference "
+    "and model all copy the code here (directed cases degenerate_split_cases).  Reported to the coordinator as an "
+    "observation about lena, not as a violation.",
+    "JUDGEMENT (which key is named): when several Split branches have an unresolved key the statement does not say which "
+    "one is named; the oracle accepts any of them (the model and the reference name the first, as the code does).  "
+    "Unresolved keys in the templates of Write / Cache / MakeFilename never surface: the name stays unformatted.",
+    "DOMAIN: context leaves are ints and strings; keys are strings, nesting depth <= 3 in generated cases (theorems: any "
+    "depth).  Rendering a dictionary with str() (a formatting field that names a sub-dictionary) is outside the model: "
+    "`Leaf.bad` is a poison leaf, all theorems are statements about the model, and the model is a model of the code only "
+    "for programs whose constructed state has `St.noBad` — evaluated by the driver on every case and required to be true; "
+    "the generator excludes a field only if an EARLIER SetContext creates a dictionary at its path.  Key numbers >= n are "
+    "silently dropped by `single` (the driver numbers keys by the case's alphabet, so this does not occur).",
+    "templates are well-formed double-brace templates without format specs / conversions, given to the model parsed (the "
+    "scanner of format_context is C08's)",
+    "flow values are (data, context) pairs or bare data (int); UpdateContextFromStatic.run raises on bare data (model: "
+    "unmodelled), so flows with bare data are run only through trees without UpdateContextFromStatic",
     "run-time elements that update a value's context in place are represented by UpdateContextFromStatic, MakeFilename "
-    "and a user mutator element (update_recursively(context, key, value)); the oracle requires the state of every "
-    "element after the run to equal its state before the run",
+    "and a user mutator element; the oracle requires the state of every element after the run to equal its state before",
     "FillComputeSeq / FillRequestSeq nodes, tuple branches that Split turns into them and bare fill/compute elements are "
     "modelled for static context only (as LenaSequences / as elements without static context); no flow is run through "
     "trees that contain them (fill/compute/request scheduling is C03/C05/C16)",
     "Cache hoisting (Cache.alter_sequence builds a temporary Source over the flattened elements after an existing cache, "
     "which lena.core.meta.alter_sequence then discards) is checked by the oracle on trees constructed a second time with "
-    "the cache files present; the temporary pass is not modelled (redelivery_idempotent covers re-propagation of the "
-    "same context)",
+    "the cache files present; the temporary pass is not modelled.  Write.run / Cache._load_flow are not executed: the "
+    "derived names are read from output_directory / _filename (C18, C19 cover the files)",
+    "ORACLE = the statement, with lena's own classes as the meaning of 'the name it derives': names of MakeFilename / Write "
+    "/ Cache are compared with those of a FRESH element of the same class handed the reference prefix fold; the flow is "
+    "compared with the flow of the same tree whose SetContext elements are inert and whose consumers were handed the "
+    "reference prefix fold.  No bookkeeping of MakeFilename is re-implemented in the oracle (ref_mkf_call / ref_run are "
+    "used only to validate the model's runRef in the correspondence).",
+    "no_leak is proved for programs whose whole fold resolves; for the others the same content is carried by "
+    "seen_is_prefix_fold (per consumer whose own prefix resolves) + run_reads_only_consumers + mkfCall_frame, and the "
+    "oracle runs the no-leak comparison whenever every UpdateContextFromStatic / MakeFilename has a resolvable prefix",
     "Split is built with bufsize=None (the whole flow is one buffer), Cache with recompute=True and at most one Cache in a "
     "tree whose flow is run (an existing cache file would replace the flow: C18), flow data are ints (Write passes them on)",
+    "_set_context(c) on a constructed tree ('redeliver', one or two arbitrary contexts) is compared with setCtx of the "
+    "model, which exercises the stale-_static_context and ret/raise branches that nesting alone cannot reach; the oracle "
+    "judges only a single delivery (= an enclosing sequence)",
 ]
-RULE = ("quick: three directed families (~290 trees for run-time aliasing of static context: nested static key, "
+RULE = ("quick: five directed families (hostile in-place updaters next to every copy the statement names; degenerate "
+        "Splits; (~290 trees for run-time aliasing of static context: nested static key, "
         "UpdateContextFromStatic/MakeFilename, a later in-place update of the run-time context by a user mutator, a second "
         "UpdateContextFromStatic or MakeFilename, three values; ~100 trees for FillComputeSeq / FillRequestSeq nodes, tuple "
         "branches that Split converts into them, branches given as bare elements, and Splits constructed while the caches "
         "of their branches exist; ~350 trees with static keys below `output` followed by MakeFilename prefix / suffix / "
         "filename methods, values with and without a run-time `output` key); all trees with <= 2 leaves over 10 leaf kinds (SetContext constant / formatting / "
         "nested key, StoreContext, UpdateContextFromStatic, MakeFilename, Write, Cache, plain element, run-time mutator), "
-        "depth <= 2, Sequence and Source tops; 6000 seeded trees with 3 leaves over 7 leaf kinds; 4000 seeded random trees "
+        "depth <= 2, Sequence and Source tops; 4000 seeded trees with 3 leaves over 7 leaf kinds; 3000 seeded random trees "
         "of depth <= 3 (Sequence / Source / FillComputeSeq / FillRequestSeq / tuple / bare-element branches, 0-3 Split "
         "branches, 6 keys, 7 formatting fields incl. unresolvable ones, MakeFilename with any legal combination of "
         "filename/dirname/fileext/prefix/suffix/overwrite, 15 % of the trees with a Cache constructed a second time with "
@@ -117,18 +180,24 @@ RULE = ("quick: three directed families (~290 trees for run-time aliasing of sta
         "thorough: all trees with <= 3 leaves over the 7 leaf kinds and <= 2 leaves over all 10, 40 000 seeded 4-leaf "
         "trees over the 10 kinds, 40 000 random trees.  Non-trivial: some element saw a non-empty context or derived a "
         "formatted name.")
-LEVEL_TEXT = ("Lean 4 theorems about a transcribed model of the multi-pass static-context protocol (bottom-up construction, "
-              "_set_context({}) in every constructor, re-propagation by enclosing sequences, skip-while-empty, stale "
-              "_static_context, the two LenaKeyError exits) for ALL trees of Sequence/Source/Split of any depth and size: the "
-              "constructed state equals a closed form defined from the single top-down prefix fold (build_eq_final), whence "
-              "seen = prefix fold at every position, causality (state at a position is a function of its cone), Split "
-              "exports the intersection, unresolved keys surface with their key, and run-time flow = reference flow in which "
-              "static context enters only through UpdateContextFromStatic / the name of MakeFilename.  Tied to /repo by a "
-              "correspondence check on every object of every generated tree, plus an oracle that evaluates the property with "
-              "an independent Python prefix fold and pairwise causality comparison of trees sharing a cone.")
+LEVEL_TEXT = ("Lean 4 theorems about a transcribed VALUE model of the multi-pass static-context protocol (bottom-up "
+              "construction, _set_context({}) in every constructor, re-propagation by enclosing sequences, skip-while-empty, "
+              "stale _static_context, the two LenaKeyError exits) for all trees of Sequence/Source/Split of any depth and "
+              "size in the model's domain (no rendered dictionary): the constructed state equals a closed form defined from "
+              "the single top-down prefix fold (build_eq_final), whence seen = prefix fold at every position, causality "
+              "(state at a position is a function of its cone), Split exports the intersection (a meet) and hands each "
+              "branch its own object (token level), an unresolved key surfaces and is the key at which a formatting field "
+              "of some SetContext breaks against its prefix fold, run-time flow = reference flow when the tree resolves, and "
+              "MakeFilename can touch nothing but five keys below output.  Copies (aliasing) are NOT proved: they are "
+              "checked on the real code with hostile in-place updaters, in-place updates of every _get_context() result and "
+              "id()-classes against the token model.  Tied to /repo by a correspondence check on every object of every "
+              "generated tree (protocol, closed form, specification, tokens, re-delivery), plus an oracle that evaluates the "
+              "property with an independent Python prefix fold, lena's own classes for derived names, a differential "
+              "no-leak run, state-before = state-after, and pairwise causality comparison of trees sharing a cone.")
 LEVEL_NOTE = ("Trusted: Lean kernel (+ propext, Classical.choice, Quot.sound), the hand transcription validated by the "
-              "correspondence run, value semantics of contexts (locality of mutation), dictionary rendering and template "
-              "scanning outside the model, the JSON protocol.")
+              "correspondence run, value semantics of contexts (locality of mutation, checked dynamically, not proved), "
+              "dictionary rendering and template scanning outside the model, the JSON protocol.  11 reading aids / "
+              "definitional lemmas are listed in AUX_THEOREMS, not in THEOREMS.")
 TECHNIQUE = ("Lean 4 proof over hand-written model (closed form of a multi-pass protocol via a monotonicity lemma) + "
              "correspondence check (exhaustive small scopes, seeded random trees) + independent reference-fold oracle")
 DESIGN_REF = "DESIGN.md section 3, C13"
@@ -606,7 +675,7 @@ def _keyerr(e):
 def _get(obj):
     import lena.core
     try:
-        return obj._get_context()
+        return copy.deepcopy(obj._get_context())
     except lena.core.LenaKeyError as e:
         return _keyerr(e)
     except Exception as e:  # any other class is reported as such
@@ -768,7 +837,7 @@ def _fresh_names(tree, ref):
     return out
 
 
-def _neutral_run(tree, ref, make_flow):
+def _neutral_run(tree, ref, make_flow, seed_mkf=True):
     """the no-leak reference run: the same tree with its SetContext elements replaced by inert ones (every static context is empty),
     in which each UpdateContextFromStatic and MakeFilename is handed, by hand, the reference prefix fold of its
     position in the original tree; then the same flow"""
@@ -781,7 +850,7 @@ def _neutral_run(tree, ref, make_flow):
     objs = []
     top = build(t2, objs)
     for i2, (nd, o) in enumerate(zip(preorder(t2), objs)):
-        if nd["k"] in ("ucfs", "mkf"):
+        if nd["k"] == "ucfs" or (nd["k"] == "mkf" and seed_mkf):
             seen = ref.exp[i2]["seen"]
             if seen:
                 o._set_context(copy.deepcopy(seen))
@@ -844,6 +913,11 @@ def _run_tree(tree, flow_ctxs, redeliver=None, full=True):
                 res["neutral"] = {"r": _out_pairs(_neutral_run(tree, ref, make_flow))}
             except Exception as e:
                 res["neutral"] = {"e": exc_name(e), "msg": str(e)[:200]}
+            if any(nd["k"] == "mkf" for nd in preorder(tree)):
+                try:
+                    res["neutral0"] = {"r": _out_pairs(_neutral_run(tree, ref, make_flow, seed_mkf=False))}
+                except Exception as e:
+                    res["neutral0"] = {"e": exc_name(e), "msg": str(e)[:200]}
     if not any(nd["k"] in ("hset", "hrun") for nd in preorder(tree)):
         res["fresh_names"] = {str(k): v for k, v in _fresh_names(tree, Ref(tree)).items()}
     if redeliver:
@@ -896,6 +970,23 @@ def paths(tree, prefix=()):
     for i, c in enumerate(tree.get("c", ())):
         for p in paths(c, prefix + (i,)):
             yield p
+
+
+def _erase_names(pairs):
+    """the flow with the five output keys of MakeFilename erased (an empty `output`, an empty context and bare data
+    are not distinguished: MakeFilename creates them when it sets a name)"""
+    out = []
+    for d, c in pairs:
+        if c is not None:
+            c = copy.deepcopy(c)
+            o = c.get("output")
+            if isinstance(o, dict):
+                for k in MKF_KEYS:
+                    o.pop(k, None)
+                if not o:
+                    del c["output"]
+        out.append([d, c or None])
+    return out
 
 
 def _strip_keys(d, prefix):
@@ -971,6 +1062,15 @@ def oracle(case, res):
             return (f"run-time result {got} differs from {res['neutral']}, the result of the same tree without its "
                     f"SetContext elements whose UpdateContextFromStatic / MakeFilename were handed the prefix fold "
                     f"(static context leaked or was lost)")
+    # (2a) frame of MakeFilename: what it derives from static context reaches the run-time contexts only as
+    # output.prefix / suffix / filename / dirname / fileext — with those keys erased, the flow is the one of the tree
+    # in which no MakeFilename was handed any static context
+    if got is not None and res.get("neutral0") is not None and "r" in got and "r" in res["neutral0"]:
+        a, b = _erase_names(got["r"]), _erase_names(res["neutral0"]["r"])
+        if a != b:
+            return (f"run-time result {got['r']}: outside output.prefix/suffix/filename/dirname/fileext it differs from "
+                    f"{res['neutral0']['r']}, the result when no MakeFilename is handed static context (static context "
+                    f"leaked through MakeFilename)")
     # (2b) run-time values never leak back: after the run every element holds what it held before
     if res.get("nodes_after") is not None:
         for idx, (node, before, aft) in enumerate(zip(nodes, recs, res["nodes_after"])):
@@ -1169,6 +1269,8 @@ def compare(case, res, replies):
             return f"node #{i}: model spec (ctxAt/leafFinal/fold) {sp} vs reference fold {_strip(node, exp)}"
         if sp != m["nodes"][i]:
             return f"node #{i}: model spec {sp} vs model protocol {m['nodes'][i]} (seen_is_prefix_fold)"
+    if not m.get("no_bad"):
+        return "the model's state contains a rendered dictionary (Leaf.bad): the case is outside the model's domain"
     pytok = tokens(tree)
     for pth, cn, tk in zip(paths(tree), m["cones"], m["toks"]):
         py = [[st[0], len(st[1])] if st[0] == "seq" else ["split"] for st in cone(tree, pth)[0]]
@@ -1775,9 +1877,9 @@ def sampled_cases(rng, n, depth, leaves, count):
 
 
 def gen_cases(ctx):
-    """A generator (cases are produced lazily).  quick: the directed families, every tree with <= 2 leaves over the
-    10-leaf alphabet, 6000 seeded draws from the trees with 3 leaves over the 7-leaf alphabet (depth <= 2, Sequence and
-    Source tops), 4000 random trees of depth <= 3 with causality variants.  thorough: all trees with <= 3 leaves over the 7
+    """A generator (cases are produced lazily).  quick: the directed families (aliasing, sequence types, output keys, hostile probes, degenerate Splits), every tree with <= 2 leaves over the
+    10-leaf alphabet, 4000 seeded draws from the trees with 3 leaves over the 7-leaf alphabet (depth <= 2, Sequence and
+    Source tops), 3000 random trees of depth <= 3 with causality variants.  thorough: all trees with <= 3 leaves over the 7
     leaf kinds and with <= 2 leaves over all 10, 40 000 seeded draws from the trees with 4 leaves over the 10 kinds,
     40 000 random trees (the parent process holds cases, results and model replies: about 4 GB)."""
     rng = ctx.rng
@@ -1788,8 +1890,8 @@ def gen_cases(ctx):
     yield from degenerate_split_cases()
     if ctx.tier == "quick":
         yield from exhaustive_cases(2, 2, EX_LEAVES + EX_LEAVES_MORE, source=True)
-        yield from sampled_cases(rng, 3, 2, EX_LEAVES, 6000)
-        n_rand = 4000
+        yield from sampled_cases(rng, 3, 2, EX_LEAVES, 4000)
+        n_rand = 3000
     else:
         yield from exhaustive_cases(3, 2, EX_LEAVES, source=True)
         yield from exhaustive_cases(2, 2, EX_LEAVES + EX_LEAVES_MORE, source=True)
